@@ -12,7 +12,11 @@
 using Sbx = rlbox::rlbox_noop_sandbox;
 #else
 #  include "verif_sandbox.hpp"
+#  ifdef LIFE_VERIF16
+using Sbx = rlbox::rlbox_verif16_sandbox;   // 64 KiB regions (ThreadSanitizer builds: mapping 4 GiB per create is slow under TSan)
+#  else
 using Sbx = rlbox::rlbox_verif32_sandbox;
+#  endif
 #endif
 #include "common.hpp"
 #include <memory>
